@@ -115,13 +115,14 @@ type File struct {
 	Census   []*Census
 	Axioms   []Clause
 	Ghosts   map[string]string
+	Regexes  []*RegexDecl
 }
 
 var keywords = map[string]bool{
 	"func": true, "trusted": true, "props": true, "mode": true, "requires": true, "ensures": true,
 	"modifies": true, "loop": true, "at-call": true, "at-store": true, "inline": true, "pure": true,
 	"spec": true, "axiom": true, "guarded_by": true, "monitor": true, "census": true, "panics": true,
-	"why:": true, "params": true, "ghostfield": true, "ufn": true, "checks": true, "nobody": true, "ghost": true, "maypanic": true, "reach": true,
+	"why:": true, "regexlang": true, "params": true, "ghostfield": true, "ufn": true, "checks": true, "nobody": true, "ghost": true, "maypanic": true, "reach": true,
 }
 
 type rawLine struct {
@@ -386,6 +387,18 @@ func ParseFile(filename, pkg, src string) (*File, error) {
 			}
 			f.SpecFns = append(f.SpecFns, sf)
 			cur = nil
+		case "regexlang":
+			// regexlang Global == "regex" ; props Cxx
+			m := regexp.MustCompile(`^(\w+)\s*==\s*("(?:[^"\\]|\\.)*")\s*;\s*props\s+(.*)$`).FindStringSubmatch(rest)
+			if m == nil {
+				return nil, errf("bad regexlang %q", rest)
+			}
+			sp, err := strconv.Unquote(m[2])
+			if err != nil {
+				return nil, errf("bad regexlang string: %v", err)
+			}
+			f.Regexes = append(f.Regexes, &RegexDecl{Global: m[1], Spec: sp, Props: strings.Fields(m[3]), Pkg: pkg, File: filename, Line: r.line})
+			cur = nil
 		case "axiom":
 			c, err := mkClause("axiom", rest)
 			if err != nil {
@@ -484,4 +497,14 @@ func splitTop(s string) []string {
 		out = append(out, t)
 	}
 	return out
+}
+
+// RegexDecl: the language of a compiled constant pattern equals the language of Spec.
+type RegexDecl struct {
+	Global string
+	Spec   string
+	Props  []string
+	Pkg    string
+	File   string
+	Line   int
 }
